@@ -306,10 +306,14 @@ func (m *mon) c19() {
 
 // ---------------------------------------------------------------- lock discipline (coq/Lockset.v)
 
-// the mutex that guards a watched field: "" = none (ownership is handed over, not locked);
-// "list" = the mutex of the list the thread is operating on; otherwise the mutex field of the owner
+// the mutex that guards a field: "" / absent = none (written before publication only, or ownership
+// is handed over, not locked: judged by happens-before alone);
+// "held:T" = the mutex the thread took in a method of T (the container the element belongs to);
+// otherwise the name of the mutex field of the owner
 var guardOf = map[string]string{
-	"Node.next": "list", "Node.prev": "list", "List.len": "mx",
+	"Node.next": "held:List", "Node.prev": "held:List", "List.len": "mx",
+	"Chunk.Data": "held:Queue", "Chunk.Next": "held:Queue", "Chunk.NextReadIndex": "held:Queue", "Chunk.NextWriteIndex": "held:Queue",
+	"heapQueue.items": "held:PriorityQueue",
 	"Manager.items": "mx", "Manager.roundRobinIndex": "mx",
 	"Response.res": "mx",
 	"worker.eventLoopSignal": "mx", "worker.errorChan": "mx", "worker.tickers": "mx", "worker.tickerStops": "mx",
@@ -338,7 +342,11 @@ func writeLockSlices(w *bufio.Writer, s *vt.Sched, tag string) int {
 		lines[m] = append(lines[m], l)
 	}
 	ownerMutex := map[string]int{} // "o<owner>.<field>" -> mutex object
-	heldList := map[int][]int{}    // thread -> held mutexes acquired in a List method
+	type heldM struct {
+		m  int
+		ty string
+	}
+	heldBy := map[int][]heldM{} // thread -> held mutexes with the receiver type of the method that took them
 	heldW := map[int][]int{}       // thread -> write-held mutexes (for cond wait)
 	first := map[string]int{}      // location -> its only accessor so far (-2 = shared)
 	nodeGuard := map[string]int{}  // node location -> mutex it has been accessed under
@@ -356,9 +364,11 @@ func writeLockSlices(w *bufio.Writer, s *vt.Sched, tag string) int {
 			} else {
 				emit(ev.Obj, fmt.Sprintf("rl %d", t))
 			}
-			if strings.HasPrefix(siteFunc(ev.Site), "List.") {
-				heldList[t] = append(heldList[t], ev.Obj)
+			ty := siteFunc(ev.Site)
+			if i := strings.Index(ty, "."); i >= 0 {
+				ty = ty[:i]
 			}
+			heldBy[t] = append(heldBy[t], heldM{ev.Obj, ty})
 		case "unlock", "runlock":
 			if ev.Kind == "unlock" {
 				emit(ev.Obj, fmt.Sprintf("ul %d", t))
@@ -371,9 +381,9 @@ func writeLockSlices(w *bufio.Writer, s *vt.Sched, tag string) int {
 			} else {
 				emit(ev.Obj, fmt.Sprintf("ru %d", t))
 			}
-			for j := len(heldList[t]) - 1; j >= 0; j-- {
-				if heldList[t][j] == ev.Obj {
-					heldList[t] = append(heldList[t][:j], heldList[t][j+1:]...)
+			for j := len(heldBy[t]) - 1; j >= 0; j-- {
+				if heldBy[t][j].m == ev.Obj {
+					heldBy[t] = append(heldBy[t][:j], heldBy[t][j+1:]...)
 					break
 				}
 			}
@@ -385,13 +395,9 @@ func writeLockSlices(w *bufio.Writer, s *vt.Sched, tag string) int {
 			}
 		case "plainR", "plainW":
 			f := siteTab[ev.Site].Field
-			g, known := guardOf[f]
-			if !known {
-				emit(0, fmt.Sprintf("? access to %s, a field with no entry in the guard table (%s)", f, siteName(ev.Site)))
-				continue
-			}
+			g := guardOf[f]
 			if g == "" {
-				continue
+				continue // not a lock-guarded field (set once before publication, or handed over): happens-before only
 			}
 			lk := f + "@o" + strconv.Itoa(ev.Obj)
 			// exclusive phase: only its creator has touched the location so far
@@ -404,13 +410,16 @@ func writeLockSlices(w *bufio.Writer, s *vt.Sched, tag string) int {
 				first[lk] = -2
 			}
 			m := 0
-			if g == "list" {
-				if h := heldList[t]; len(h) > 0 {
-					m = h[len(h)-1]
+			if strings.HasPrefix(g, "held:") {
+				for j := len(heldBy[t]) - 1; j >= 0; j-- {
+					if heldBy[t][j].ty == g[5:] {
+						m = heldBy[t][j].m
+						break
+					}
 				}
 				if m != 0 {
 					if prev, ok := nodeGuard[lk]; ok && prev != m {
-						emit(m, fmt.Sprintf("? %s accessed under two different list mutexes (%s)", lk, siteName(ev.Site)))
+						emit(m, fmt.Sprintf("? %s accessed under two different container mutexes (%s)", lk, siteName(ev.Site)))
 						continue
 					}
 					nodeGuard[lk] = m
